@@ -20,7 +20,7 @@ OK, NOPATH, RANGE_ERR = 'Success', 'Path destination unknown', 'Unknown error 25
 def start_simulator():
     s = socket.socket(); s.bind(('127.0.0.1', 0)); port = s.getsockname()[1]; s.close()
     p = subprocess.Popen([sys.executable, '-m', 'cpppo.server.enip', '--no-udp', '-a', '127.0.0.1:%d' % port] +
-                         ['%s=%s[%d]' % (k, v[0], v[1]) for k, v in TAGS.items()] + ['X=REAL', 'Y=LREAL', 'Z=DINT', 'BIG=DINT[16600]'],
+                         ['%s=%s[%d]' % (k, v[0], v[1]) for k, v in TAGS.items()] + ['X=REAL', 'Y=LREAL', 'Z=DINT', 'BIG=DINT[16600]', 'E1=DINT[4]', 'E2=INT[4]', 'E3=REAL[4]', 'E4=DINT[4]', 'E5=SINT[4]'],      # 13 tags without an address: the 10th and later get two-digit attribute numbers
                          stdout=subprocess.DEVNULL, stderr=subprocess.DEVNULL, cwd='/')
     for _ in range(150):
         try:
@@ -36,6 +36,44 @@ def rand_val(rng, ty):
         return rng.randrange(-2000, 2000) * 0.25
     lo, hi = RANGE[ty]
     return rng.choice([lo, hi, 0, 1, -1, rng.randrange(lo, hi + 1)])
+
+
+def forward_open_sizes(port):
+    """Forward Open (frames from the reference encoder) at the largest connection sizes the two services can ask for - 511 bytes (small,
+    9 bits) and 65535 (large, 16 bits) - and at their neighbours: each must be answered by a successful reply of its own service and
+    closed cleanly.  -> problems"""
+    from props import c01, codec_common as K
+    problems = []
+    for large, size in ((False, 511), (False, 510), (False, 1), (True, 65535), (True, 65534), (True, 512)):
+        s = socket.create_connection(('127.0.0.1', port), timeout=3)
+        try:
+            s.sendall(c01.model_enc(0, 0, [K.frame_tree(dict(cmd=101, session=0, status=0, ctx=b'fosizes_', options=0, nums=[1, 0]))])[0])
+            r = recv_frame(s)
+            sess = struct.unpack('<I', r[4:8])[0] if r else 0
+            fo = dict(path=[('class', 6), ('instance', 1)], prio=10, ticks=5, ot=(0x20000002, 2000000, (size, 1, 0, 2, 0)),
+                      to=(0x20000001, 2000000, (size, 1, 0, 2, 0)), serial=0x4242, vendor=0x1337, oserial=0xDEADBEEF, mult=3, transport=0xA3,
+                      cpath=[('port', 1, 0), ('class', 2), ('instance', 1)])
+            cmb = c01.model_enc(11, 0, [K.fo_tree(fo, K.ncp_model(large, fo['ot'][2]), K.ncp_model(large, fo['to'][2]), large)])[0]
+            pay = struct.pack('<IHHHHHH', 0, 8, 2, 0, 0, 0xB2, len(cmb)) + cmb
+            s.sendall(struct.pack('<HHII8sI', 0x6F, len(pay), sess, 0, b'fosize__', 0) + pay)
+            rb = recv_frame(s)
+            want = 0xDB if large else 0xD4
+            if rb is None or rb[8:12] != bytes(4) or len(rb) < 44 or rb[40] != want or rb[42] != 0:
+                problems.append(dict(operation='%s Forward Open asking for %d bytes' % ('Large' if large else 'Small', size),
+                                     got=(rb or b'')[:48].hex(), expected='encapsulation status 0, service 0x%02X, CIP status 0' % want))
+                continue
+            fcb = c01.model_enc(11, 0, [K.cm_tree(dict(kind='fc_req', path=fo['path'], prio=10, ticks=5, serial=fo['serial'], vendor=fo['vendor'],
+                                                       oserial=fo['oserial'], cpath=fo['cpath']))])[0]
+            pay = struct.pack('<IHHHHHH', 0, 8, 2, 0, 0, 0xB2, len(fcb)) + fcb
+            s.sendall(struct.pack('<HHII8sI', 0x6F, len(pay), sess, 0, b'foclose_', 0) + pay)
+            rb = recv_frame(s)
+            if rb is None or rb[8:12] != bytes(4) or len(rb) < 44 or rb[40] != 0xCE or rb[42] != 0:
+                problems.append(dict(operation='Forward Close after a Forward Open of %d bytes' % size, got=(rb or b'')[:48].hex(), expected='service 0xCE, status 0'))
+        except OSError as e:
+            problems.append(dict(operation='Forward Open %d' % size, problem='connection error %s' % type(e).__name__))
+        finally:
+            s.close()
+    return problems
 
 
 # ---------------------------------------------------------------- (a) pylogix
@@ -63,6 +101,16 @@ def pylogix_scalars_and_big(port, rng):
             got = [(x.Value, x.Status) for x in rs]
             if got != [(model['X'], OK), (model['Z'], OK), (0.0, OK)]:
                 problems.append(dict(operation="Read ['X','Z','Y']", got=repr(got), expected=repr([(model['X'], OK), (model['Z'], OK), (0.0, OK)])))
+            # the 9th..13th tag declared: each its own array of its own type
+            late = {'E1': [11, -12, 13, 14], 'E2': [21, 22, -23, 24], 'E3': [31.5, -32.25, 33.0, 34.75], 'E4': [41, 42, 43, -44], 'E5': [51, -52, 53, 54]}
+            for nm, vs in late.items():
+                r = comm.Write('%s[0]' % nm, vs)
+                if r.Status != OK:
+                    problems.append(dict(operation='Write %s[0] = %r' % (nm, vs), got=r.Status, expected=OK))
+            for nm, vs in late.items():
+                r = comm.Read('%s[0]' % nm, 4)
+                if (list(r.Value or []), r.Status) != (vs, OK):
+                    problems.append(dict(operation='Read %s[0] x 4 (after writing all of E1..E5)' % nm, got=repr((r.Value, r.Status)), expected=repr((vs, OK))))
             # markers across the 64 KiB line, then the whole array in one call
             n = 16600
             big = [0] * n
@@ -482,6 +530,10 @@ def run(ctx):
             nbad += 1
             ctx.violation(dict(client='pylogix', **pm), 'pylogix obtained something other than the array model\'s value / documented status')
         nops += 30
+        for pm in forward_open_sizes(port)[:3]:
+            nbad += 1
+            ctx.violation(dict(client='reference encoder', **pm), 'Forward Open at a boundary connection size is not answered with success')
+        nops += 6
         seqs = [1, 2, 3, 0x7FFE, 0x7FFF, 0x8000, 0x8001, 0xFFFE, 0xFFFF, 0, 1] + [rng.randrange(0, 65536) for _ in range(40 if ctx.thorough else 12)]
         pr = raw_client(port, rng, spec, seqs)
         nops += len(seqs) + 4
